@@ -8,6 +8,8 @@
 import Panrpc.Generated.Current
 import Panrpc.Model.Broadcaster
 import Driver.RemoteDef
+import Driver.Wire
+import Driver.Convert
 
 open Panrpc
 
@@ -85,7 +87,9 @@ def handle (st : St) (line : String) : St × String :=
       | some s' => ({ st with bc := s' }, "ok")
       | none => ({ st with dead := true }, s!"rejected {line}")
     | none => (st, s!"bad-op {line}")
-  | "rw" :: rest => (st, remoteDefQuery rest)
+  | "rw" :: rest => (st, RwQ.remoteDefQuery rest)
+  | "wire" :: rest => (st, WireQ.wireQuery rest)
+  | "cv" :: rest => (st, Driver.Cv.convertQuery rest)
   | _ => (st, s!"bad-op {line}")
 
 partial def loop (h : IO.FS.Stream) (out : IO.FS.Stream) (st : St) : IO Unit := do
